@@ -424,9 +424,10 @@ func firstDiff(x, y any, path string) (string, any, any) {
 	}
 }
 
-// checkContext: compare Session.CurrentContext() of the live and the re-read session at every wait.  On goflow before the
-// fix fixes/C02_path_location_empty_path.diff the re-read session panics for a run with an empty path.
-const checkContext = false
+// checkContext: compare Session.CurrentContext() of the live and the re-read session at every wait.  Before goflow commit
+// 7f4b253 (fixes/C02_path_location_empty_path.diff) the re-read session panicked for a run with an empty path
+// (class context:reread-panics).
+const checkContext = true
 
 // contextDiff compares the expression context (Session.CurrentContext()) of the kept-alive session with that of the
 // session read back from its JSON, leaving out the two values the statement exempts (webhook, legacy_extra) and the
